@@ -34,6 +34,11 @@ pub fn get_rewards_share(deps: Deps, address: Addr) -> Result<RewardsShareRespon
         });
     }
 
+    // a weight recorded for a later epoch (a position opened during the current one) is not effective yet
+    if last_epoch_user_weight_update > current_epoch {
+        last_user_weight_seen = Uint128::zero();
+    }
+
     let start_epoch = last_epoch_user_weight_update;
     for epoch_id in start_epoch..=current_epoch {
         let user_weight_at_epoch =
